@@ -24,6 +24,9 @@ S = 'pybufrkit/script.py'
 C = 'pybufrkit/constants.py'
 D = 'pybufrkit/descriptors.py'
 U = 'pybufrkit/utils.py'
+E = 'pybufrkit/encoder.py'
+M = 'pybufrkit/mdquery.py'
+B = 'pybufrkit/bufr.py'
 Q = 'pybufrkit/dataquery.py'
 
 MUTS = [
@@ -82,6 +85,32 @@ MUTS = [
     ('C14', 'preserve', 'C18', S, "            if c == '}':\n                state = STATE_IDLE\n", "            if c == '}':\n                state = ''\n"),
     ('C15', 'preserve', 'C18', S, "        elif c == '\\n' and state == STATE_COMMENT:\n            state = STATE_IDLE\n            keep.append(c)\n\n        else:\n            keep.append(c)\n",
      "        else:\n            if c == '\\n' and state == STATE_COMMENT:\n                state = STATE_IDLE\n            keep.append(c)\n"),
+    # ---- w5-smallsrc, stages SD / SE / SF: small self-contained functions ------------------------------------
+    # encoder.py nbits_for_uint
+    ('SD1', 'change', 'C02', E, "binx = bin(x)[2:]", "binx = bin(x)[1:]"),
+    ('SD2', 'change', 'C02', E, "    if binx.count('1') == len(binx):\n        nbits += 1", "    if binx.count('1') == len(binx) + 1:\n        nbits += 1"),
+    ('SD3', 'change', 'C05', E, "    if binx.count('1') == len(binx):\n        nbits += 1", "    if binx.count('1') == len(binx):\n        nbits += 2"),
+    ('SD4', 'change', 'C02', E, "    if binx.count('1') == len(binx):\n        nbits += 1", "    if binx.count('0') == len(binx):\n        nbits += 1"),
+    ('SD5', 'unsupported', 'C02', E, "binx = bin(x)[2:]", "binx = '{:b}'.format(x)"),
+    ('SD6', 'preserve', 'C02', E, "    nbits = len(binx)\n", "    nbits = 0\n    nbits += len(binx)\n"),
+    ('SD7', 'preserve', 'C02', E, "    if binx.count('1') == len(binx):\n        nbits += 1", "    if binx.count('0') == 0:\n        nbits += 1"),
+    # mdquery.py MetadataExprParser.parse
+    ('SE1', 'change', 'C17', M, "metadata_expr[1:].split('.')", "metadata_expr.split('.')"),
+    ('SE2', 'change', 'C17', M, "metadata_expr = metadata_expr.strip()", "metadata_expr = metadata_expr.lstrip()"),
+    ('SE3', 'change', 'C17', M, "            section_index = None\n", "            section_index = 0\n"),
+    ('SE4', 'change', 'C17', M, "            except ValueError:\n", "            except IndexError:\n"),
+    ('SE5', 'change', 'C17', M, "            metadata_name = metadata_expr[1:]\n", "            metadata_name = metadata_expr[2:]\n"),
+    ('SE6', 'unsupported', 'C17', M, "section_index = int(section_index)", "section_index = int(section_index, 10)"),
+    ('SE7', 'preserve', 'C17', M, "            section_index = None\n            metadata_name = metadata_expr[1:]\n",
+     "            metadata_name = metadata_expr[1:]\n            section_index = None\n"),
+    ('SE8', 'preserve', 'C17', M, "if '.' in metadata_expr:", "if metadata_expr.count('.') > 0:"),
+    # bufr.py BufrMessage.subset (fragments subset_checks, subset_select)
+    ('SF1', 'change', 'C10', B, "if max(subset_indices) >= self.n_subsets.value:", "if max(subset_indices) > self.n_subsets.value:"),
+    ('SF2', 'change', 'C10', B, "if min(subset_indices) < 0:", "if min(subset_indices) < -1:"),
+    ('SF3', 'change', 'C10', B, "n_subsets = len(set(subset_indices))", "n_subsets = len(subset_indices)"),
+    ('SF4', 'change', 'C10', B, "                         if i in subset_indices]", "                         if i not in subset_indices]"),
+    ('SF5', 'preserve', 'C10', B, "if min(subset_indices) < 0:", "if 0 > min(subset_indices):"),
+    ('SF6', 'unsupported', 'C10', B, "n_subsets = len(set(subset_indices))", "n_subsets = len(frozenset(subset_indices))"),
     # ---- stage D: the whole NodePathParser of dataquery.py (stateful class, C15_src_parse_eq) ----------------
     ('D1', 'change', 'C15', Q, "                if self.current_state == STATE_START_PARSING:\n                    self.current_state = STATE_START_SUBSET\n",
      "                if True:\n                    self.current_state = STATE_START_SUBSET\n"),
